@@ -53,6 +53,9 @@ class KindGen(G.GrammarGen):
                             alts.append(G.Seq([G.Ref(b), G.Ref(other)]))
                     if r.random() < 0.35:
                         alts.insert(r.randrange(len(alts) + 1), r.choice([G.Str("z"), G.Ref("ID"), G.Seq([G.Str("w"), G.Ref("INT")])]))
+                    if r.random() < 0.4:   # a cycle of abstract rules: back to this or an earlier rule, guarded by a terminal
+                        alts.insert(r.randrange(len(alts) + 1),
+                                    G.Seq([G.Str("("), G.Ref(r.choice(names[:i + 1])), G.Str(")")]))
                     body = G.Alt(alts) if len(alts) > 1 else alts[0]
                 rules.append(G.RuleD(nm, body))
             g = dict(rules=rules)
